@@ -25,6 +25,7 @@ import (
 	"mellium.im/xmpp/jid"
 	"mellium.im/xmpp/muc"
 	"mellium.im/xmpp/mux"
+	"mellium.im/xmpp/stanza"
 	"mellium.im/xmpp/verifharness/internal/ev"
 	"mellium.im/xmpp/verifharness/internal/wire"
 	"mellium.im/xmpp/verifharness/internal/xt"
@@ -191,12 +192,14 @@ type hcase struct {
 	kind   string // ibb muc
 	s2s    bool
 	origin string // ibb: local peer
-	steps  []hstep
+	// ibb: the stanza that carries the data: "iq" (acknowledged) or "message"
+	carrier string
+	steps   []hstep
 }
 
 func (c hcase) String() string {
 	var sb strings.Builder
-	fmt.Fprintf(&sb, "%s helpers, s2s=%v stream-opened-by=%s steps:", c.kind, c.s2s, c.origin)
+	fmt.Fprintf(&sb, "%s helpers, s2s=%v stream-opened-by=%s data-carried-by=%s steps:", c.kind, c.s2s, c.origin, c.carrier)
 	for _, s := range c.steps {
 		sb.WriteString(" " + s.String())
 	}
@@ -208,9 +211,10 @@ func genHelpers(t *rapid.T) hcase {
 	n := rapid.IntRange(1, 6).Draw(t, "nsteps")
 	if c.kind == "ibb" {
 		c.origin = rapid.SampledFrom([]string{"local", "local", "peer"}).Draw(t, "origin")
+		c.carrier = rapid.SampledFrom([]string{"iq", "iq", "message"}).Draw(t, "carrier")
 		c.steps = append(c.steps, hstep{op: "open", pol: rapid.SampledFrom([]string{"accept", "accept", "accept", "refuse", "silent"}).Draw(t, "openpol")})
 		for i := 0; i < n; i++ {
-			st := hstep{op: rapid.SampledFrom([]string{"write", "write", "peerdata", "read", "peerclose", "close", "flush"}).Draw(t, "op")}
+			st := hstep{op: rapid.SampledFrom([]string{"write", "write", "peerdata", "read", "readwait", "peerclose", "close", "flush"}).Draw(t, "op")}
 			st.n = rapid.SampledFrom([]int{0, 1, 2, 3, 4, 5, 7, 10, 64}).Draw(t, "n")
 			st.flag = rapid.Bool().Draw(t, "flag")
 			st.pol = rapid.SampledFrom([]string{"ack", "ack", "ack", "silent", "error"}).Draw(t, "pol")
@@ -382,6 +386,32 @@ func checkHelpers(t interface {
 		// not act on read deadlines), so it is only called when one of the two
 		// is known to be the case
 		pending, ended := 0, false
+		// peerData: the peer sends one data packet with n bytes on the carrier
+		peerData := func(what string, i, n int) bool {
+			id := fmt.Sprintf("pd%d", i)
+			data := `<data xmlns="http://jabber.org/protocol/ibb" sid="` + psid + `" seq="` + strconv.Itoa(seq) + `">` + base64.StdEncoding.EncodeToString([]byte(strings.Repeat("y", n))) + `</data>`
+			seq++
+			if c.carrier == "message" {
+				// not acknowledged; a following sentinel shows that it was processed
+				sv.Feed(`<message xmlns="` + ns + `" id="` + id + `" from="` + peerJID.String() + `" to="test@example.net">` + data + `</message>`)
+				if !sentinel(what) {
+					return false
+				}
+				logf("%s -> processed (message carrier)", what)
+				pending += n
+				return true
+			}
+			sv.Feed(`<iq xmlns="` + ns + `" type="set" id="` + id + `" from="` + peerJID.String() + `" to="test@example.net">` + data + `</iq>`)
+			if !answered(id) {
+				stalled(what + ": the peer's data packet was not answered")
+				return false
+			}
+			logf("%s -> answered (%s)", what, lastReplyType)
+			if lastReplyType == "result" {
+				pending += n
+			}
+			return true
+		}
 		for i, st := range c.steps {
 			what := fmt.Sprintf("step %d %s", i, st)
 			switch st.op {
@@ -393,7 +423,13 @@ func checkHelpers(t interface {
 						time.AfterFunc(5*time.Millisecond, cancel)
 					}
 					_, ok := call(what, func() string {
-						cn, err := ih.Open(ctx, sv.Session, peerJID)
+						var cn *ibb.Conn
+						var err error
+						if c.carrier == "message" {
+							cn, err = ih.OpenIQ(ctx, stanza.IQ{To: peerJID}, sv.Session, false, 4096, "ls1")
+						} else {
+							cn, err = ih.Open(ctx, sv.Session, peerJID)
+						}
 						if cn != nil {
 							conn = cn
 						}
@@ -411,7 +447,7 @@ func checkHelpers(t interface {
 						cn, _ := l.Accept()
 						acc <- cn
 					}()
-					sv.Feed(`<iq xmlns="` + ns + `" type="set" id="po1" from="` + peerJID.String() + `" to="test@example.net"><open xmlns="http://jabber.org/protocol/ibb" sid="` + psid + `" block-size="4096" stanza="iq"/></iq>`)
+					sv.Feed(`<iq xmlns="` + ns + `" type="set" id="po1" from="` + peerJID.String() + `" to="test@example.net"><open xmlns="http://jabber.org/protocol/ibb" sid="` + psid + `" block-size="4096" stanza="` + c.carrier + `"/></iq>`)
 					if !answered("po1") {
 						stalled(what + ": the peer's <open/> was not answered")
 						return
@@ -454,17 +490,59 @@ func checkHelpers(t interface {
 				if conn == nil {
 					continue
 				}
-				id := fmt.Sprintf("pd%d", i)
-				sv.Feed(`<iq xmlns="` + ns + `" type="set" id="` + id + `" from="` + peerJID.String() + `" to="test@example.net"><data xmlns="http://jabber.org/protocol/ibb" sid="` + psid + `" seq="` + strconv.Itoa(seq) + `">` + base64.StdEncoding.EncodeToString([]byte(strings.Repeat("y", st.n))) + `</data></iq>`)
-				seq++
-				if !answered(id) {
-					stalled(what + ": the peer's data packet was not answered")
+				if !peerData(what, i, st.n) {
 					return
 				}
-				logf("%s -> answered (%s)", what, lastReplyType)
-				if lastReplyType == "result" {
-					pending += st.n
+			case "readwait":
+				// a Read that is already waiting when the peer's data arrives
+				if conn == nil || pending != 0 || ended {
+					continue
 				}
+				type rres struct {
+					n   int
+					err error
+					p   string
+				}
+				rch := make(chan rres, 1)
+				rconn := conn
+				go func() {
+					var r rres
+					r.p = ev.Guard(func() {
+						buf := make([]byte, 256)
+						r.n, r.err = rconn.Read(buf)
+					})
+					rch <- r
+				}()
+				for k := 0; k < 1000 && len(wire.BlockedMatching("ibb.(*Conn).Read")) == 0; k++ {
+					time.Sleep(time.Millisecond)
+				}
+				n := st.n
+				if n == 0 {
+					n = 3
+				}
+				if !peerData(what+" (a Read is waiting)", i, n) {
+					return
+				}
+				if !sentinel(what) {
+					return
+				}
+				select {
+				case r := <-rch:
+					logf("%s -> the waiting Read returned n=%d err=%v", what, r.n, r.err)
+					if r.p != "" {
+						fail("%s: Read panicked: %s", what, r.p)
+					}
+					if r.n == 0 || r.err != nil {
+						fail("%s: the Read that was waiting when %d bytes arrived on the open stream returned n=%d err=%v", what, n, r.n, r.err)
+					}
+					pending -= r.n
+					if pending < 0 {
+						pending = 0
+					}
+				case <-time.After(2 * time.Second):
+					fail("%s: a Read was waiting on the open stream, the peer's data packet (%d bytes, carried by %s) has been processed by the serve loop (a later request was answered), and the Read is still blocked", what, n, c.carrier)
+				}
+				continue
 			case "read":
 				if conn == nil || (pending == 0 && !ended) {
 					continue
